@@ -90,6 +90,8 @@ def common_checks(r, want_valid=True):
         return ("purity", "an input layout was modified by the call")
     if r.pure == 2:
         return ("purity", "the result changed after its inputs were dropped")
+    if r.pure == 3:
+        return ("value", "a VirtualArray input answers depth queries (purelist_depth, minmax_depth, branch_depth) differently from the array its generator hands out")
     return None
 
 
@@ -189,7 +191,12 @@ def fam_reduce_ragged(rng):
             L.NONE_P = 0.0
     if dtype == "complex64" and red == "prod":
         return None          # (products of float32 pairs are not exact for the generated values)
-    vals = [L.gen_value(rng, T) for _ in range(L.toplen(rng, 0, 4))]
+    # (min / max / argmin / argmax: now and then values at the ends of the integer type's range)
+    L.EXTREME_P = 0.3 if (red in ("min", "max", "argmin", "argmax") and rng.random() < 0.2) else 0.0
+    try:
+        vals = [L.gen_value(rng, T) for _ in range(L.toplen(rng, 0, 4))]
+    finally:
+        L.EXTREME_P = 0.0
     isarg = red in ("argmin", "argmax")
     if red in ("min", "max", "argmin", "argmax") and "nan" in repr(vals):
         return None
@@ -395,12 +402,61 @@ def fam_rpad(rng):
 
 def fam_combinations(rng):
     """C07: combinations(n, replacement, axis) yields per list exactly the itertools tuples, in order"""
+    if rng.random() < 0.02:
+        # many elements per tuple, with replacement, out of very short lists: few tuples, but the count C(len+n-1, n)
+        # is computed through large intermediate products
+        T = ("list", ("num", rng.choice(["int64", "int32"])))
+        vals = [L.gen_value(rng, T, maxlen=rng.choice([1, 2, 3])) for _ in range(rng.randint(1, 3))]
+        vals = [v[:3] for v in vals]
+        lay = L.Enc(rng).encode(vals, T)
+        n = rng.choice([20, 35, 40, 59, 60, 62, 64])
+        ref = R.combinations(vals, n, True, 1)
+        return Case("combinations %d 1 1 %s" % (n, lay.tokens()),
+                    expect_value(ref, "combinations(n=%d, replacement=True, axis=1) of %r" % (n, vals), cmp=L.same), {"value": vals, "type": T})
     T, vals, lay, depth = _struct_case(rng, maxdepth=2)
     axis, posaxis = _axis(rng, T, depth)
     n, repl = rng.randint(1, 4), rng.random() < 0.4
     ref = R.combinations(vals, n, repl, posaxis)
     return Case("combinations %d %d %d %s" % (n, repl, axis, lay.tokens()),
                 expect_value(ref, "combinations(n=%d, replacement=%s, axis=%d) of %r" % (n, repl, axis, vals), cmp=L.same), {"value": vals, "type": T})
+
+
+def fam_through_record(rng):
+    """C05/C07/C09: an operation at an axis below a record array is applied inside every field: num, local_index,
+    combinations and pad_none at axis >= 1 of an array of records whose fields are lists give a record of the
+    per-field results (the record array itself: right number of records, fields in order)"""
+    k = rng.randint(1, 3)
+    keys = ["x", "y", "z"][:k]
+    d = rng.randint(1, 2)
+    subT = [gen_pure(rng, rng.randint(d, 2), optlist=0.15) for _ in keys]
+    if any(t[0] == "option" for t in subT):
+        subT = [t[1] if t[0] == "option" else t for t in subT]
+    T = ("record", keys, subT)
+    vals = [L.gen_value(rng, T) for _ in range(L.toplen(rng, 0, 4))]
+    lay = L.Enc(rng).encode(vals, T)
+    axis = rng.randint(1, d)
+    op = rng.choice(["num", "localindex", "combinations", "rpad"])
+    n, repl = rng.randint(1, 3), rng.random() < 0.4
+    target, clip = rng.randint(0, 4), rng.random() < 0.5
+
+    def one(fv):
+        if op == "num":
+            return R.num(fv, axis)
+        if op == "localindex":
+            return R.localindex(fv, axis)
+        if op == "combinations":
+            return R.combinations(fv, n, repl, axis)
+        return R.rpad(fv, target, axis, clip)
+    try:
+        per = {kk: one([v[kk] for v in vals]) for kk in keys}
+    except R.Refuse:
+        return None
+    ref = [{kk: per[kk][i] for kk in keys} for i in range(len(vals))]
+    line = {"num": "num %d" % axis, "localindex": "localindex %d" % axis,
+            "combinations": "combinations %d %d %d" % (n, repl, axis), "rpad": "rpad %d %d %d" % (target, axis, clip)}[op]
+    return Case("%s %s" % (line, lay.tokens()),
+                expect_value(ref, "%s at axis=%d inside the fields of %r" % (op, axis, vals), cmp=(L.same if op == "combinations" else loose)),
+                {"value": vals, "type": T})
 
 
 def _string_sort_case(rng):
@@ -442,7 +498,11 @@ def fam_sort(rng):
     T = gen_pure(rng, rng.randint(0, 3), regular=0.0, optlist=SORT_OPTLIST, optleaf=SORT_OPTLEAF, leaf=(["int64"] if dt else None))
     if T[0] == "list" and rng.random() < 0.3:
         T = ("option", T)      # missing lists at the outermost level only (deeper ones: KF-C06-sort-missing-lists)
-    vals = [L.gen_value(rng, T) for _ in range(L.toplen(rng, 0, 4))]
+    L.EXTREME_P = 0.3 if rng.random() < 0.25 else 0.0
+    try:
+        vals = [L.gen_value(rng, T) for _ in range(L.toplen(rng, 0, 4))]
+    finally:
+        L.EXTREME_P = 0.0
     if dt:
         kind, unit = rng.choice(["M8", "m8"]), rng.choice(["s", "ms", "us"])
         lay = L.Enc(rng).encode(vals, _retype_leaf(T, "%s[%s]" % (kind, unit)))
@@ -499,7 +559,11 @@ def fam_argsort(rng):
             return common_checks(r)
         return Case("argsort -1 %d %d %s" % (asc, stable, lay.tokens()), checks, {"value": vals, "type": T})
     T = gen_pure(rng, rng.randint(0, 3), regular=0.0, optlist=SORT_OPTLIST, optleaf=SORT_OPTLEAF)
-    vals = [L.gen_value(rng, T) for _ in range(L.toplen(rng, 0, 4))]
+    L.EXTREME_P = 0.3 if rng.random() < 0.25 else 0.0
+    try:
+        vals = [L.gen_value(rng, T) for _ in range(L.toplen(rng, 0, 4))]
+    finally:
+        L.EXTREME_P = 0.0
     if "None" in repr(vals) and not any(ch.isdigit() or ch in "TF" for ch in repr(vals).replace("None", "")):
         return None
     lay = L.Enc(rng).encode(vals, T)
@@ -578,6 +642,8 @@ def _tok_item(it):
         return "new"
     if k == "fld":
         return "fld %s" % it[1]
+    if k == "flds":
+        return "flds %d %s" % (len(it[1]), " ".join(it[1]))
     if k == "arr":
         frombool = it[3] if len(it) > 3 else 0
         return "arr %d %d %s %s" % (frombool, len(it[2]), " ".join(map(str, it[2])), " ".join(map(str, it[1])))
@@ -772,7 +838,8 @@ def fam_getitem_jagged(rng):
     J = _gen_jagged(rng, vals, depth, boolean, none_p, row_p)
     JT = _jag_type(depth - 1, boolean, none_p, row_p)     # element type of the index array J (a list of ...)
     # J is a list (the array) of values of type: depth-1 more list levels, then the int/bool list
-    jl = L.Enc(rng, style="canonical").encode(J, JT)
+    # (the index array itself in any physical encoding, half of the time)
+    jl = (L.Enc(rng, style="canonical") if rng.random() < 0.5 else L.Enc(rng, allow_ndnumpy=False)).encode(J, JT)
     try:
         ref = R.jagged(vals, J)
     except R.IndexErr:
@@ -1241,6 +1308,13 @@ def fam_layout_independent(rng):
     return Case("both %d %s %s" % (len(lineA.split()), lineA, lineB), check, {"value": vals, "type": T})
 
 
+IDENTIFIER = re.compile(r"^[A-Za-z_][A-Za-z_0-9]*$")
+DATASHAPE_KEYWORDS = {"var", "option", "bool", "int8", "int16", "int32", "int64", "int128", "uint8", "uint16", "uint32", "uint64",
+                      "uint128", "float16", "float32", "float64", "float128", "decimal32", "decimal64", "decimal128", "bignum",
+                      "int", "real", "complex", "intptr", "uintptr", "string", "char", "bytes", "date", "json", "void",
+                      "datetime", "categorical", "pointer"}
+
+
 def ref_type(T, categorical=False):
     """the documented (datashape-like) item type of an array whose elements have type T"""
     k = T[0]
@@ -1259,7 +1333,7 @@ def ref_type(T, categorical=False):
         return "option[%s]" % inner if base[0] in ("list", "regular", "string") else "?" + inner
     if k == "record":
         name = T[3] if len(T) > 3 else None
-        if name and not categorical:
+        if name and not categorical and IDENTIFIER.match(name) and name not in DATASHAPE_KEYWORDS:
             # a named record: Name["x": t, ...] / Name[t, ...]
             if T[1] is None:
                 return name + "[" + ", ".join(ref_type(t) for t in T[2]) + "]"
@@ -1394,6 +1468,67 @@ def fam_field_slices(rng):
     if chk is None:
         return None
     return Case("getitem %s %s" % (slice_tokens(items), lay.tokens()), chk, {"value": vals, "type": T})
+
+
+def fam_nested_projection(rng):
+    """C10: a list of field names followed by further field items selects inside every chosen field --
+    x[["a", "b"], "f"] is zip(a: x.a.f, b: x.b.f), x[["a", "b"], ["f", "g"], "z"] goes one level further -- and
+    commutes with the positional items of the same slice, wherever they are written"""
+    def wrap(T):
+        r = rng.random()
+        if r < 0.45:
+            return T
+        if r < 0.7:
+            return ("option", T)
+        if r < 0.9:
+            return ("list", T)
+        return ("option", ("list", T))
+    leafT = lambda: ("num", rng.choice(["int64", "float64", "bool", "int32"]))
+    rec3 = lambda: ("record", ["z", "w"], [wrap(leafT()), leafT()])
+    deep = rng.random() < 0.6
+    rec2 = lambda: ("record", ["x", "y"], [wrap(rec3()) if deep else wrap(leafT()), wrap(rec3()) if deep else leafT()])
+    T = ("record", ["a", "b", "c"][:rng.randint(2, 3)], None)
+    T = ("record", T[1], [wrap(rec2()) for _ in T[1]])
+    outer = rng.randint(0, 2)
+    for _ in range(outer):
+        T = ("list", T) if rng.random() < 0.7 else ("option", ("list", T))
+    if rng.random() < 0.3 and T[0] != "option":
+        T = ("option", T)
+    vals = [L.gen_value(rng, T) for _ in range(L.toplen(rng, 0, 4))]
+    lay = L.Enc(rng).encode(vals, T)
+    first = [k for k in T_keys(T) if rng.random() < 0.75] or [T_keys(T)[0]]
+    rng.shuffle(first)
+    fitems = [("flds", first)]
+    r = rng.random()
+    if r < 0.4:
+        fitems.append(("fld", rng.choice(["x", "y"])))
+    else:
+        second = rng.choice([["x", "y"], ["y", "x"], ["x"], ["y"]])
+        fitems.append(("flds", second))
+    if deep and rng.random() < 0.7:
+        fitems.append(("fld", rng.choice(["z", "w"])) if rng.random() < 0.7 else ("flds", rng.choice([["z"], ["w", "z"]])))
+    if rng.random() < 0.15:
+        fitems = [("fld", first[0])] + fitems[1:]
+    pos = []
+    for i in range(rng.randint(0, outer + 1)):
+        pos.append(("at", rng.randint(-3, 3)) if rng.random() < 0.3 else _rand_range(rng, 3))
+    # the field items keep their order; the positional items are interleaved at random
+    items, fi, pi = [], list(fitems), list(pos)
+    while fi or pi:
+        if fi and (not pi or rng.random() < 0.5):
+            items.append(fi.pop(0))
+        else:
+            items.append(pi.pop(0))
+    chk = expect_getitem(vals, T, items, "x[%r] of %r" % (items, vals))
+    if chk is None:
+        return None
+    return Case("getitem %s %s" % (slice_tokens(items), lay.tokens()), chk, {"value": vals, "type": T})
+
+
+def T_keys(T):
+    while T[0] in ("list", "regular", "option"):
+        T = T[1]
+    return list(T[1])
 
 
 def fam_setitem_field(rng):
@@ -1829,6 +1964,30 @@ def fam_virtual(rng):
     """C18: a VirtualArray (real VirtualArray + a counting generator + no cache / unbounded cache / a cache that evicts
     after k hits) gives, for every operation, the value of the materialised array; a first generation that fails
     surfaces as an exception and the next attempt is correct"""
+    if rng.random() < 0.06:
+        # a bit-masked array as the VirtualArray itself, every combination of valid_when / lsb_order, sliced lazily
+        # (partial ranges, elements) with the form declared: BitMaskedForm::getitem_range predicts the sliced form
+        n = rng.randint(2, 12)
+        vw, lsb = rng.random() < 0.5, rng.random() < 0.5
+        vals = [None if rng.random() < 0.35 else rng.randint(-5, 9) for _ in range(n)]
+        bits = [(0 if v is None else 1) if vw else (1 if v is None else 0) for v in vals] + [rng.randint(0, 1) for _ in range((-n) % 8)]
+        mask = []
+        for b0 in range(0, len(bits), 8):
+            chunk = bits[b0:b0 + 8]
+            mask.append(sum(bit << (i if lsb else 7 - i) for i, bit in enumerate(chunk)))
+        lay = L.BT(vw, lsb, n, mask, L.NP("int64", [99 if v is None else v for v in vals] + [99] * rng.randint(0, 2)))
+        a, b = sorted([rng.randint(0, n), rng.randint(0, n)])
+        keep = rng.choice([-2, -1, 0, 1])
+        ref = vals[a:b]
+        inner_chk = expect_value(ref, "x[%d:%d] of a lazy bit-masked array %r (valid_when=%s, lsb_order=%s)" % (a, b, vals, vw, lsb), cmp=L.same)
+
+        def check_bt(r):
+            if r.status != "OK" or not (isinstance(r.value, tuple) and len(r.value) == 3):
+                return inner_chk(r)
+            sh = _Shim()
+            sh.status, sh.value, sh.raw, sh.validity, sh.pure, sh.extra, sh.exc, sh.msg = "OK", r.value[0], r.raw, r.validity, r.pure, r.extra, None, ""
+            return inner_chk(sh)
+        return Case("virtual %d -2 1 0 getitem_range %d %d %s" % (keep, a, b, lay.tokens()), check_bt, {"value": vals})
     sub = rng.choice(VIRTUAL_SUBFAMILIES)
     inner = None
     L.Enc.ALLOW_BITMASK = False          # KF-C18-lazy-slice-bitmasked-form
@@ -1849,9 +2008,10 @@ def fam_virtual(rng):
         # KF-C18-lazy-field-of-union-form: a declared form -- or one inferred by an earlier materialisation that the
         # cache has not kept -- with a union of records refuses x["f"]
         decl_form, keep = 0, -1
-    # a third of the cases: the VirtualArray is the CONTENT of the outermost list / regular / indexed / option node
+    # three cases in seven: the VirtualArray is the CONTENT (or the content of the content) of the outermost list /
+    # regular / indexed / option node, or the fields of the outermost record array are VirtualArrays
     # (operations then carry or slice a virtual content; the driver re-reads every virtual input after the call)
-    opname = "virtual_inner" if rng.random() < 0.33 else "virtual"
+    opname = rng.choice(["virtual", "virtual", "virtual", "virtual", "virtual_inner", "virtual_inner", "virtual_inner2"])
 
     def check(r):
         if r.status != "OK":
@@ -1919,6 +2079,29 @@ def fam_union_windows(rng):
     return Case("windows %d %s" % (pattern, inner.line), check, inner.info)
 
 
+def fam_view_tail(rng):
+    """C02: a range-slice view that starts k elements into its buffers (outermost Index / NumpyArray objects with a
+    non-zero offset) is the array it shows: every operation gives what it gives on a fresh copy"""
+    sub = rng.choice(SHAREDUNION_SUBFAMILIES + ["flatten", "num", "concat", "getitem_array", "getitem_jagged", "broadcast", "astype"])
+    inner = None
+    for _ in range(10):
+        L.FIRST_EMPTY = rng.random() < 0.3
+        inner = FAMILIES[sub][0](rng)
+        L.FIRST_EMPTY = False
+        if inner is not None:
+            break
+    if inner is None:
+        return None
+    k = rng.randint(1, 3)
+
+    def check(r):
+        bad = inner.check(r)
+        if bad:
+            return (bad[0], "on a view starting %d elements into its buffers: %s" % (k, bad[1]))
+        return None
+    return Case("tailview %d %s" % (k, inner.line), check, inner.info)
+
+
 def fam_record_scalar(rng):
     """C05/C09/C10: an operation applied to one record taken out of an array (a Record scalar) gives what it gives on
     that record alone: local_index and num per field, fill_none, field projection, to_list"""
@@ -1965,7 +2148,33 @@ def fam_virtual_enforce(rng):
     vals = [L.gen_value(rng, T) for _ in range(L.toplen(rng, 0, 4))]
     lay = L.Enc(rng).encode(vals, T)
     keep = rng.choice([-2, -1, 0])
-    mode = rng.choice(["lazy", "short", "form"])
+    mode = rng.choice(["lazy", "short", "form", "fieldorder"])
+    if mode == "fieldorder":
+        # a declared record form is compared BY NAME: the same names and types stored in another order are the same
+        # form (accepted, values as generated); the same names over exchanged types are another form (refused)
+        keys = ["x", "y", "z"][:rng.randint(2, 3)]
+        subT = [("num", "int64")] + [gen_pure(rng, rng.randint(0, 1)) for _ in keys[1:-1]] + [("list", ("num", "float64"))]
+        RT = ("record", keys, subT)
+        rvals = [L.gen_value(rng, RT) for _ in range(L.toplen(rng, 0, 4))]
+        rlay = L.Enc(rng).encode(rvals, RT)
+        if not isinstance(rlay, L.RC):
+            return None
+        if rng.random() < 0.5:
+            inner = expect_value(rvals, "to_list of a VirtualArray whose declared record form lists the fields in another order, %r" % (rvals,), cmp=loose_unordered)
+
+            def check(r):
+                if r.status != "OK" or not (isinstance(r.value, tuple) and len(r.value) == 3):
+                    return ("value", "a generated record array with the declared field names and types, stored in another order, was not accepted: %s" % (r,))
+                sh = _Shim()
+                sh.status, sh.value, sh.raw, sh.validity, sh.pure, sh.extra, sh.exc, sh.msg = "OK", r.value[0], r.raw, r.validity, r.pure, r.extra, None, ""
+                return inner(sh)
+            return Case("virtual %d -2 3 0 tolist %s" % (keep, rlay.tokens()), check, {"value": rvals})
+
+        def check(r):
+            if r.status == "EXC" or not rvals:
+                return None
+            return ("value", "a generated record array whose fields have the declared names but exchanged types was accepted: %s" % (r,))
+        return Case("virtual %d -2 4 0 tolist %s" % (keep, rlay.tokens()), check, {"value": rvals})
     if mode == "lazy":
         def check(r):
             if r.status != "OK":
@@ -2132,6 +2341,9 @@ FAMILIES = {
     "union_shared": (fam_union_shared, ["C02", "C08"]),
     "union_windows": (fam_union_windows, ["C02", "C08"]),
     "record_scalar": (fam_record_scalar, ["C05", "C09", "C10"]),
+    "view_tail": (fam_view_tail, ["C02"]),
+    "through_record": (fam_through_record, ["C05", "C07", "C09"]),
+    "nested_projection": (fam_nested_projection, ["C10", "C01"]),
     "print_nocrash": (fam_print_nocrash, ["C12"]),
     "fields": (fam_fields, ["C01", "C10"]),
     "field_slices": (fam_field_slices, ["C10"]),
